@@ -11,7 +11,7 @@ import sys
 
 VERIF = os.path.dirname(os.path.dirname(os.path.abspath(__file__)))
 sys.path.insert(0, VERIF)
-from sa import canon  # noqa: E402
+from sa import canon, lispcanon, lispread  # noqa: E402
 
 root = sys.argv[1] if len(sys.argv) > 1 else "/repo"
 out = {}
@@ -28,3 +28,18 @@ for d, _dn, fs in sorted(os.walk(os.path.join(root, "src", "basilisp"))):
 with open(canon.ROLES_PATH, "w", encoding="utf-8") as fh:
     json.dump(out, fh, indent=0, sort_keys=True)
 print(f"{len(out)} modules, {sum(len(v) for v in out.values())} functions, {n} binding sites -> {canon.ROLES_PATH}")
+
+lout = {}
+ln = 0
+for d, _dn, fs in sorted(os.walk(os.path.join(root, "src", "basilisp"))):
+    for f in sorted(fs):
+        if f.endswith(".lpy"):
+            p = os.path.join(d, f)
+            rel = os.path.relpath(p, root)
+            t = lispcanon.reference_table(lispread.read_all(open(p, encoding="utf-8").read(), rel))
+            if t:
+                lout[rel] = t
+                ln += sum(len(v) for v in t.values())
+with open(lispcanon.ROLES_PATH, "w", encoding="utf-8") as fh:
+    json.dump(lout, fh, indent=0, sort_keys=True)
+print(f"{len(lout)} .lpy files, {sum(len(v) for v in lout.values())} top-level forms, {ln} let-like binding sites -> {lispcanon.ROLES_PATH}")
